@@ -119,7 +119,9 @@ def eligible_ids(src, ids):
             continue
         if any(a for (_, _, _, a) in occ):
             continue
-        if any(k in NONBINDING_USES for k in by_name[sym]):
+        # by NAME: property keys, shorthands, labels, JSX names, the external side of import / export specifiers;
+        # an import BINDING that merely has the same spelling is another binding (its own Id is excluded by `kinds` above)
+        if any(k in NONBINDING_USES and k != "import" for k in by_name[sym]):
             continue
         if any(b[st:en] != sym.encode() for (st, en, _, _) in occ):
             continue
@@ -188,7 +190,9 @@ def canon(res, fresh=None, old=None):
 # ---------------------------------------------------------------------------------------------- generated programs
 POOL = ["a", "b", "v", "foo", "bar", "baz", "fooBar", "foo_bar", "_x", "_unused", "Foo", "Bar", "FOO_BAR", "x1", "$el", "T", "K", "tmp", "acc", "cb", "x", "unused",
         # spellings that are substrings of the keywords around them (a rule that searches the TEXT for the name finds the keyword)
-        "du", "mod", "are", "e", "et", "ons", "lass", "ype", "num", "ter", "ace", "ort", "unc", "ar"]
+        "du", "mod", "are", "e", "et", "ons", "lass", "ype", "num", "ter", "ace", "ort", "unc", "ar",
+        # spellings that CONTAIN a keyword of the surrounding syntax
+        "asyncOnly", "unasynced", "getValue", "staticInit", "newItem", "classy", "functional", "awaited", "typeOf", "item", "cell"]
 
 
 def derived(rng, n):
@@ -218,6 +222,10 @@ STMTS_ES = [
     "let N1 = 1; function g2() { var N1 = 1; N1 = 2; }", "let N1 = 1; function g3() { const N1 = 1; f(N1); } N1 = 2;", "let N1 = f(); { class N1 {} }",
 ]
 STMTS_TS = [
+    "import { N1 } from './mod.ts'; function apply(N1: number): number { return N1 + 1; } apply(N1);", "import { N1 } from './mod.ts'; function show(N1: number): number { return N1 + 1; } show(N1);",
+    "import N1 from './mod.ts'; const f5 = (N1: number) => N1; f5(N1); type T5 = typeof N1;", "import { N1, N2 } from './mod.ts'; { const N1 = 1; g(N1); } g(N1); let t6: N2;",
+    "function N1(t: any, k: any) {} class K7 { @N1 async load() { return 1; } }", "function N1(n: number) { return (t: any, k: any) => {}; } class K8 { @N1(3) static async load() { return 1; } @N1(4) get g() { return 1; } }",
+    "function N1(t: any) {} @N1 class K9 { static m() {} }",
     "module N1 {}", "declare module N1 {}", "namespace N1 {}", "declare namespace N1 { const N2: number; }", "module N1 { export const N2 = 1; }", "module N1.N2 {}",
     "type N1 = number;", "type N1 = number; let N2: N1;", "interface N1 { m: number }", "interface N1 { m: N2 }", "let N1: N2;", "function N1<N2>(p: N2): N2 { return p; }",
     "function N1<N2>() {}", "enum N1 { A }", "enum N1 { A } f(N1.A);", "namespace N1 { const N2 = 1; }", "declare const N1: number;", "abstract class N1 { abstract m(): void; }",
@@ -248,7 +256,7 @@ def gen_program(rng):
         w = rng.choice(WRAPS)
         if "namespace" in w and not ts:
             w = "%s"
-        if s.startswith("export"):
+        if s.startswith("export") or s.startswith("import"):
             w = "%s"
         out.append(w % s)
     return {"src": "\n".join(out), "media": "ts" if ts else rng.choice(["js", "ts", "tsx", "jsx"]), "origin": "generated"}
@@ -282,6 +290,19 @@ def c20(ctx):
         progs.append({"src": sn["src"], "media": None, "origin": "corpus:" + sn["rule_file"]})
     for _ in range(3000 if quick else 40000):
         progs.append(gen_program(rng))
+    # targeted: a binding whose spelling CONTAINS a keyword that stands next to it (text search vs token lookup)
+    for tpl, kws in (("function N1(t: any, k: any) {} class K7 { @N1 async load() { return 1; } }", ["asyncOnly", "unasynced", "isasync"]),
+                     ("function N1(n: number) { return (t: any, k: any) => {}; } class K8 { @N1(3) static async load() { return 1; } }", ["asyncOnly", "staticInit", "unasynced"]),
+                     ("function N1(t: any, k: any) {} class K6 { @N1 static *gen() { g(); } @N1 get g() { g(); } }", ["staticky", "getter", "regen"]),
+                     ("const N1 = 1; export const f7 = async (p = N1) => { g(p); };", ["asyncOnly", "constant", "exported"]),
+                     ("function N1() {} namespace Q7 { N1(); } module Q8 { N1(); }", ["modules", "namespaced", "du"]),
+                     ("let N1 = 1; label7: for (;;) { N1++; break label7; }", ["label", "labelled", "forever", "breaker"]),
+                     ("function N1<T>(x: T) { return x; } enum E7 { A = 1 } declare const c7: number; N1(c7);", ["enumerate", "declared", "constant"]),
+                     ("type N1 = number; interface I7 { m: N1 } let v7: N1 = 1; g(v7);", ["typed", "interfaced", "ype"]),
+                     ("import { N1 } from './mod.ts'; function apply(N1: number): number { return N1 + 1; } apply(N1);", ["item", "cell", "show", "apply2"])):
+        for nm in kws:
+            for w in ("%s", "export function w9() { %s }" if not tpl.startswith("import") and "export" not in tpl and "namespace" not in tpl else "%s"):
+                progs.append({"src": w % tpl.replace("N1", nm), "media": "ts", "origin": "generated"})
     # media of corpus programs: the first of ts, tsx, js, jsx under which the text parses
     pending = list(range(len(progs)))
     idents = [None] * len(progs)
